@@ -24,7 +24,7 @@ pub fn bases(all: bool) -> Vec<Base> {
     for carrier in [Carrier::Header, Carrier::Query] {
         for opt in 0..3u8 {
             for token in [false, true] {
-                for shape in 0..6u8 {
+                for shape in 0..7u8 {
                     let quick_pick = matches!(
                         (carrier, opt, token, shape),
                         (Carrier::Header, 0, false, 1)
@@ -39,6 +39,8 @@ pub fn bases(all: bool) -> Vec<Base> {
                             | (Carrier::Query, 1, false, 4)
                             | (Carrier::Header, 0, false, 4)
                             | (Carrier::Header, 0, false, 5)
+                            | (Carrier::Header, 0, false, 6)
+                            | (Carrier::Query, 0, false, 6)
                     );
                     if !all && !quick_pick {
                         continue;
@@ -73,6 +75,17 @@ pub fn bases(all: bool) -> Vec<Base> {
                             // lossy decoding of other byte strings would also produce
                             p.headers.push(("X-Amz-Meta-Owner".into(), b"Andr\xef\xbf\xbd \xef\xbf\xbd\xef\xbf\xbd".to_vec()));
                             p.signed.push("x-amz-meta-owner".into());
+                        }
+                        6 => {
+                            // signed list-valued headers: one field holding a list (cookie pairs, media ranges) and a
+                            // name sent as two fields -- the same items can be spread over fields in other ways
+                            p.headers.push(("Cookie".into(), b"a=1; b=2; c=3".to_vec()));
+                            p.headers.push(("Accept".into(), b"text/html, application/json;q=0.9,*/*".to_vec()));
+                            p.headers.push(("X-Amz-Meta-Tag".into(), b"t1".to_vec()));
+                            p.headers.push(("X-Amz-Meta-Tag".into(), b"t2; t3".to_vec()));
+                            p.signed.push("cookie".into());
+                            p.signed.push("accept".into());
+                            p.signed.push("x-amz-meta-tag".into());
                         }
                         4 => {
                             // what S3-style clients send: the payload digest in a (signed) header
@@ -235,6 +248,44 @@ pub fn mutants(b: &Base, uri_bytes: &[u8], reduced: bool) -> Vec<Mutant> {
         let mut x = w.clone();
         x.headers[hi].0 = format!("{}x", hn);
         push(format!("{}-renamed", hn), x);
+    }
+    // field structure: one field split in two at a list separator, two adjacent fields of one name joined by a
+    // separator, two adjacent fields of one name swapped -- each under every protocol version (what arrives as one
+    // field or several depends on the version's header compression and on intermediaries, the signature must not)
+    for version in [0u8, 10, 2, 3] {
+        for (hi, (hn, hv)) in w.headers.iter().enumerate() {
+            for sep in [&b", "[..], b",", b"; ", b";", b" ", b"="] {
+                let mut from = 0;
+                while let Some(off) = hv[from..].windows(sep.len()).position(|x| x == sep) {
+                    let at = from + off;
+                    let mut x = w.clone();
+                    x.version = version;
+                    x.headers[hi].1 = hv[..at].to_vec();
+                    x.headers.insert(hi + 1, (hn.clone(), hv[at + sep.len()..].to_vec()));
+                    push(format!("{}-split-at[{}]-{:?}-version{}", hn, at, String::from_utf8_lossy(sep), version), x);
+                    from = at + 1;
+                }
+            }
+            if hi + 1 < w.headers.len() && w.headers[hi + 1].0.eq_ignore_ascii_case(hn) {
+                for sep in [&b", "[..], b",", b"; ", b";", b" ", b""] {
+                    let mut x = w.clone();
+                    x.version = version;
+                    let next = x.headers.remove(hi + 1).1;
+                    x.headers[hi].1.extend_from_slice(sep);
+                    x.headers[hi].1.extend_from_slice(&next);
+                    push(format!("{}-fields-joined-by-{:?}-version{}", hn, String::from_utf8_lossy(sep), version), x);
+                }
+                let mut x = w.clone();
+                x.version = version;
+                x.headers.swap(hi, hi + 1);
+                push(format!("{}-fields-swapped-version{}", hn, version), x);
+            }
+        }
+        if version != 0 {
+            let mut x = w.clone();
+            x.version = version;
+            push(format!("same-request-version{}", version), x);
+        }
     }
     // two-valued signed header: swap the values
     {
@@ -724,7 +775,7 @@ pub fn run(ctx: &Ctx) -> Report {
     Report {
         stats: st,
         rule: format!(
-            "{} validly signed base requests (carrier x options x token x shape, one shape carrying x-amz-content-sha256 / Content-Length / Content-MD5 as S3 clients do), each accepted by implementation and reference; for each, every single-component mutation: 13 methods; every URI position x every byte http admits ({} values) + 7 insertions + deletion per position; every header (signed — one value holds Latin-1 bytes, a UTF-8 sequence and the replacement character U+FFFD; another is valid UTF-8 made of replacement characters only —, unsigned, Authorization, date, token) position x 11 bytes (incl. 0xE8, 0xE9, 0xA0, 0xC3) + insertion + deletion, header removed/added/duplicated/renamed; every bit of every body byte, truncations, appends, byte-order marks / zero-width space / CR LF inserted into bodies; old signature transplanted onto requests re-signed with a changed instant (10 deltas, 5 renderings), date text, 12 scope near-misses, 5 access keys, signed-list drops/additions, token changes; provider key: all 256 single-bit flips, 5 off-by-one derivations, another secret; signature: every digit x 15 other values, upper case, every truncation, extensions, all hex strings of length <= 2{}. Finally the genuine request, a forged one under its signature (method / path / body changed) and the genuine one again are validated as two (thorough: three) futures multiplexed on one thread against a provider that is Pending first, in every order of polls. Each mutant is validated right after the genuine request was accepted on the same thread (so a remembered success cannot vouch for it). Oracle: the implementation may return Ok only if the reference verifier, run on the request as received with the key the provider handed out, accepts. states = distinct reference strings-to-sign (+ refusal stage); non-trivial = distinct (mutated request, provider)",
+            "{} validly signed base requests (carrier x options x token x shape, one shape carrying x-amz-content-sha256 / Content-Length / Content-MD5 as S3 clients do), each accepted by implementation and reference; for each, every single-component mutation: 13 methods; every URI position x every byte http admits ({} values) + 7 insertions + deletion per position; every header (signed — list-valued ones split at every list separator into two fields, adjacent fields of one name joined by 6 separators or swapped, each under HTTP/1.0, 1.1, 2 and 3; one value holds Latin-1 bytes, a UTF-8 sequence and the replacement character U+FFFD; another is valid UTF-8 made of replacement characters only —, unsigned, Authorization, date, token) position x 11 bytes (incl. 0xE8, 0xE9, 0xA0, 0xC3) + insertion + deletion, header removed/added/duplicated/renamed; every bit of every body byte, truncations, appends, byte-order marks / zero-width space / CR LF inserted into bodies; old signature transplanted onto requests re-signed with a changed instant (10 deltas, 5 renderings), date text, 12 scope near-misses, 5 access keys, signed-list drops/additions, token changes; provider key: all 256 single-bit flips, 5 off-by-one derivations, another secret; signature: every digit x 15 other values, upper case, every truncation, extensions, all hex strings of length <= 2{}. Finally the genuine request, a forged one under its signature (method / path / body changed) and the genuine one again are validated as two (thorough: three) futures multiplexed on one thread against a provider that is Pending first, in every order of polls. Each mutant is validated right after the genuine request was accepted on the same thread (so a remembered success cannot vouch for it). Oracle: the implementation may return Ok only if the reference verifier, run on the request as received with the key the provider handed out, accepts. states = distinct reference strings-to-sign (+ refusal stage); non-trivial = distinct (mutated request, provider)",
             bs.len(), uri_bytes.len(),
             if thorough { "; plus all pairs over ~600 strided mutation sites on four bases" } else { "" }
         ),
